@@ -67,8 +67,8 @@ def crosscheck():
 
 
 def warm():
-    import broker_common, client_common, proxy_common, server_common, tt_common
-    for mod in (broker_common, tt_common, client_common, server_common, proxy_common):
+    import broker_common, client_common, client_t2_common, proxy_common, safelog_common, server_common, tt_common
+    for mod in (broker_common, tt_common, client_common, server_common, proxy_common, safelog_common, client_t2_common):
         build = getattr(mod, "build", None) or getattr(mod, "build_broker")
         build()
         build(race=True)
@@ -78,6 +78,7 @@ def main():
     ok = True
     ok &= conformance("broker", ["broker"], ["broker"])
     ok &= conformance("turbotunnel", ["common/turbotunnel"], ["common/turbotunnel"])
+    ok &= conformance("safelog", ["common/safelog"], ["common/safelog"])
     ok &= conformance("libs", ["client/lib", "server/lib", "proxy/lib", "common/turbotunnel"], ["client/lib", "server/lib", "proxy/lib"])
     ok &= crosscheck()
     warm()
